@@ -10,6 +10,7 @@ import (
 	"github.com/elk-language/elk/lexer"
 	"github.com/elk-language/elk/parser/ast"
 	"github.com/elk-language/elk/position"
+	"github.com/elk-language/elk/position/diagnostic"
 	"github.com/elk-language/elk/types"
 	"github.com/elk-language/elk/value"
 	"github.com/elk-language/elk/value/symbol"
@@ -346,10 +347,29 @@ func (c *Checker) expandInstanceMacro(typ types.Type, name string, kind ast.Macr
 	return c.expandMacro(macro, kind, posArgs, namedArgs, loc)
 }
 
+// Whether the program is already known to be invalid, in which case
+// macros are not executed (their bodies may not have been compiled).
+func (c *Checker) failedBeforeMacroCall() bool {
+	if c.phase == methodCheckPhase {
+		// the shared list of diagnostics is being appended to by the checkers
+		// of other method bodies, use the state from before they were started
+		return c.failedBeforeMethodBodies
+	}
+	return c.Errors.IsFailure()
+}
+
 func (c *Checker) expandMacro(macro *types.Method, kind ast.MacroKind, posArgs []ast.ExpressionNode, namedArgs []ast.NamedArgumentNode, loc *position.Location) ast.Node {
 	exprNodeType := c.StdExpressionNode()
 	patternNodeType := c.StdPatternNode()
 	typeNodeType := c.StdTypeNode()
+
+	// Collect the failures of this macro call separately.  Method bodies are
+	// checked concurrently and share one list of diagnostics: whether a macro
+	// call in one body gets expanded must not depend on failures that
+	// other bodies happen to have reported so far.
+	sharedErrors := c.Errors
+	callErrors := diagnostic.NewSyncDiagnosticList()
+	c.Errors = callErrors
 
 	checkedArgs := c.checkMacroArguments(macro, posArgs, namedArgs, loc)
 
@@ -364,7 +384,10 @@ func (c *Checker) expandMacro(macro *types.Method, kind ast.MacroKind, posArgs [
 	}
 	c.checkCanAssign(macro.ReturnType, expectedReturnType, loc)
 
-	if c.Errors.IsFailure() {
+	c.Errors = sharedErrors
+	sharedErrors.JoinErrList(callErrors.DiagnosticList)
+
+	if callErrors.IsFailure() || c.failedBeforeMacroCall() {
 		return nil
 	}
 
